@@ -340,4 +340,21 @@ theorem c05_go_bootstrap_consumed_first (ext : BootExt) (a : authInfo) (u : Str)
               exact ⟨p, b, rfl, by first | rfl | assumption, by first | rfl | assumption, by first | rfl | assumption, rfl, rfl, [.fail 500], by simp [hn, hm, hs, hu]⟩
   · rw [hl] at h; simp at h
 
+/-- **the TOTP step raises the caller's cookie only after `validateUserTOTP` said yes for the caller**, on the
+translated source of `internalTOTPAuthHandler`: the upgrade is reached only when `validateUserTOTP(authUser, code)`
+returned `(true, nil)` — whose meaning is `c05_go_totp_accept` — and it raises `authUser`'s cookie to `level | TOTP` -/
+theorem c05_go_totp_upgrade (ext : TotpAuthExt) (user : Str) (level : Nat) (otp : Int) (u : Str) (lvl : Nat)
+    (h : BootEffect.upgrade u lvl ∈ (KM.Gen.GoBoot.totpAuthCore ext user level otp).2) :
+    ext.validate user otp = (true, none) ∧ u = user ∧ lvl = level ||| 64 := by
+  obtain ⟨validate, upgradeResult⟩ := ext
+  revert h
+  unfold KM.Gen.GoBoot.totpAuthCore
+  dsimp -iota only
+  rcases hv : validate user otp with ⟨v, _ | e⟩
+  · cases v with
+    | false => simp
+    | true =>
+      rcases hu : upgradeResult user (level ||| 64) with ⟨x, _ | e⟩ <;> simp [hu] <;> intro h1 h2 <;> exact ⟨h1, h2⟩
+  · simp
+
 end KM.Totp
